@@ -1,5 +1,5 @@
 (* C20 -- Host-side data helpers preserve values and order for any batch size and schedule. *)
-From Flaxm Require Import Lib.Harness Model.Serial Model.Host Proofs.Host.
+From Flaxm Require Import Lib.Harness Model.Serial Model.Host Proofs.Host Model.LinenLoop Model.ScanNd Proofs.ScanNd.
 
 (* pad_shard_unpad: for every batch size >= 1, device count >= 1, min_device_batch and per-example function *)
 Theorem C20_pad_shard_unpad : forall f d mdb x, 1 <= d -> pad_shard_unpad f d mdb x = map f x.
@@ -41,6 +41,18 @@ Theorem C20_invert_perm_negative_axes : forall perm i, NoDup (map (normz (length
   nth (normz (length perm) (nth i perm 0%Z)) (invert_perm_z perm) 0 = i.
 Proof. exact invert_perm_z_spec. Qed.
 Print Assumptions C20_invert_perm_negative_axes.
+
+(* ... and the nested scans of _scan_nd thread the carry and stack the outputs exactly like the nested Python loop over the
+   scanned axes in row-major order, for every body, nesting depth and extent *)
+Theorem C20_scan_nd_is_loop : forall C X Y (body : C -> X -> C * Y) t c,
+  fst (scan_nd C X Y body c t) = fst (loop_nd C X Y body c (nflatten X t)) /\
+  nflatten Y (snd (scan_nd C X Y body c t)) = snd (loop_nd C X Y body c (nflatten X t)).
+Proof. exact scan_nd_is_loop. Qed.
+Print Assumptions C20_scan_nd_is_loop.
+Example C20_scan_nd_example :
+  scan_nd nat nat nat (fun c x => (c * 3 + x, x * 2 + c)) 0 (NNode [NNode [NLeaf 1; NLeaf 2]; NNode [NLeaf 3; NLeaf 4]])
+  = (58, NNode [NNode [NLeaf 2; NLeaf 5]; NNode [NLeaf 11; NLeaf 26]]).
+Proof. vm_compute. reflexivity. Qed.
 
 (* prefetch_to_device: items in order, each once, then stop -- or the source's exception after the items before it *)
 Theorem C20_prefetch_to_device_order : forall size items fail, 1 <= size ->
